@@ -1253,7 +1253,7 @@ pub fn c20() -> Result<u64, String> {
     let mut n = 0u64;
     for round in 0..40 { n += 1;
         let tiles = gen_tiles(&mut r, 3 + round % 20, 2); let ic = 1 + (round % 4) as u8;
-        let b = if round % 2 == 0 { foreign_archive(&mut r, &tiles, ic, [0, 2, 5][round % 3], false) } else { write_at(build(&tiles, comp_of(ic), &Default::default()), 0).map_err(|e| e.to_string())?.0 };
+        let b = if round % 2 == 0 { foreign_archive(&mut r, &tiles, ic, [0, 2, 5][round % 3], round % 4 == 0 /* leaf directories nested up to three levels */) } else { write_at(build(&tiles, comp_of(ic), &Default::default()), 0).map_err(|e| e.to_string())?.0 };
         let p = parse_archive_foreign(&b)?; let h = &p.hdr;
         let log = std::rc::Rc::new(std::cell::RefCell::new(Vec::new()));
         let mut pm = PMTiles::from_reader(Spy { inner: Cursor::new(b.clone()), touched: log.clone() }).map_err(|e| e.to_string())?;
